@@ -132,11 +132,11 @@ def big_meshes(draw):
 
 def any_mesh():
     small = st.one_of(polylines(), surface_meshes(), surface_meshes(), volume_meshes())
-    return st.integers(0, 59).flatmap(lambda i: big_meshes() if i == 0 else small)
+    return st.integers(0, 59).flatmap(lambda i: big_meshes() if i == 59 else small)
 
 
 def with_big(small, kinds):
-    return st.integers(0, 59).flatmap(lambda i: big_meshes().filter(lambda m: m["kind"] in kinds) if i == 0 else small)
+    return st.integers(0, 59).flatmap(lambda i: big_meshes().filter(lambda m: m["kind"] in kinds) if i == 59 else small)
 
 
 class Model:
@@ -720,7 +720,7 @@ def fn_edge_tree(case, ctx):
 # -------------------------------------------------------------------------------------------- sub-check: MST
 
 @contextlib.contextmanager
-def memory_cap(extra=3 << 30):
+def memory_cap(extra=2 << 30):
     """Soft address-space limit (current size + extra) while a library call runs: if Kruskal ever hands a cyclic edge set to the
     orientation loop, that loop appends to its queue forever; a MemoryError (reported as a violation) is better than an
     OOM-killed worker, which would hang the process pool.  Restored afterwards."""
@@ -743,8 +743,15 @@ def memory_cap(extra=3 << 30):
 
 
 def compute_capped(tree):
-    with memory_cap():
-        return tree()
+    try:
+        with memory_cap():
+            return tree()
+    except Exception as e:
+        # drop the locals of the library frames (a multi-GB work queue after a MemoryError): the exception object is kept alive by
+        # the reported violation for the rest of the shard and would otherwise pin that memory in every worker
+        import traceback
+        traceback.clear_frames(e.__traceback__)
+        raise
 
 
 def check_mst(ctx, tag, tree, n, adm, w, wm, root_expected):
@@ -1102,7 +1109,7 @@ SUBCHECKS = [
     SubCheck("edge_tree", edge_tree_case(), fn_edge_tree, quick=1500, thorough=2500),
     # short watchdog: a normal case takes milliseconds; if the orientation loop of the MST ever runs on a cyclic edge set it grows its
     # queue without bound (up to ~0.7 GB/s), so it must be stopped long before 8-16 workers exhaust the machine (see memory_cap)
-    SubCheck("edge_mst", mst_case(), fn_mst, quick=1500, thorough=2500, watchdog=(3, 5)),
+    SubCheck("edge_mst", mst_case(), fn_mst, quick=1500, thorough=2500, watchdog=(2, 3)),
     SubCheck("face_tree", face_tree_case(), fn_face_tree, quick=1100, thorough=2000),
     SubCheck("cell_tree", cell_tree_case(), fn_cell_tree, quick=700, thorough=1500),
     SubCheck("forests", forest_case(), fn_forest, quick=1100, thorough=2000),
